@@ -400,7 +400,7 @@ class Libs:
             'is_grad_enabled': self._is_grad_enabled, 'abs': self._nonlinear('abs'),
             'where': self._torch_where, 'sign': self._nonlinear('sign'), 'exp': self._nonlinear('exp'),
             'log': self._nonlinear('log'), 'clamp': self._nonlinear('clamp'), 'pow': self._pow,
-            'chunk': self._torch_chunk, 'split': self._torch_split, 'narrow': self._torch_narrow,
+            'repeat_interleave': self._repeat_interleave, 'chunk': self._torch_chunk, 'split': self._torch_split, 'narrow': self._torch_narrow,
             'finfo': self._torch_finfo, 'arange': self._torch_arange, 'remainder': self._torch_remainder, 'fmod': self._torch_remainder,
             'is_tensor': lambda x: isinstance(x, (DataT, Sym)) and getattr(x, 'lib', 'torch') == 'torch',
             'device': lambda s: Device(str(s)),
@@ -940,6 +940,23 @@ class Libs:
         y = ops.conv_transpose2d(x4, w4, bias, (1, one(stride)), (0, one(padding)), (0, one(output_padding)), groups,
                                  (1, one(dilation)))
         return y[:, :, 0]
+
+    def _repeat_interleave(self, x, repeats, dim=None):
+        if dim is None or not isinstance(repeats, int):
+            raise AnalysisError('unsupported', 'repeat_interleave form')
+        if getattr(x, 'nl', False):
+            from . import nonlin
+            x = nonlin.rebase(x)
+        d = dim % x.ndim
+        n = x.dims[d][1]
+        idxs = [k // repeats for k in range(n * repeats)]
+        if x.dims[d][0] == 'S':
+            r = ops.gather_axis(x, d, idxs)
+            r.contig = True
+            return r
+        idx = [slice(None)] * x.ndim
+        idx[d] = idxs
+        return x[tuple(idx)]
 
     def _torch_chunk(self, x, chunks, dim=0):
         n = x.shape[dim]
